@@ -44,6 +44,18 @@ def expr(rng, d=0):
         lambda: "{ k: %s, [%s]: 1 }.k" % (sub(), sub()),
         lambda: "(%s ? %s : %s)" % (sub(), sub(), sub()),
         lambda: sub(),
+        # the same variable read more than once around an operand that changes it
+        lambda: "`${x}:${%s}:${x}`" % rng.choice(["x = y", "m.p", "m()", "f()", "i++"]),
+        lambda: "`${i}:${i++}:${i}`",
+        lambda: "str.concat(x, %s, x)" % rng.choice(["(x = y)", "m.p", "m()", "f()"]),
+        lambda: "x.concat(x, %s)" % rng.choice(["(x = y)", "m.p", "x"]),
+        lambda: "x + %s + x" % rng.choice(["(x = y)", "m.p", "m()", "f()"]),
+        lambda: "str.replace(a, %s, a)" % rng.choice(["m.p", "(a = b)"]),
+        # a conditional inside an instrumented expression whose test needs temporaries of its own
+        lambda: "%s + ((%s + %s).length > 1 ? 'L' : 'S')" % (rng.choice(["f()", "f.str()", "g(a)"]), rng.choice(["g(a)", "f.str()", "a"]), rng.choice(["f.str()", "g(b)"])),
+        lambda: "`${%s}${(%s + %s + %s) ? x : y}`" % (rng.choice(["f()", "g(a)"]), rng.choice(["g(a)", "a"]), rng.choice(["f.str()", "g(b)"]), rng.choice(["f()", "b"])),
+        lambda: "%s.concat(((%s + %s) ? f.str() : 'S'), %s)" % (rng.choice(["f.str()", "str"]), rng.choice(["g(a)", "f.str()"]), rng.choice(["f.str()", "g(b)"]), sub()),
+        lambda: "(%s ? %s + %s : %s) + %s" % (sub(), par(sub()), par(sub()), sub(), par(sub())),
     ]
     e = rng.choice(forms)()
     if e.startswith("{"):
